@@ -1764,6 +1764,14 @@ func frameSpawn(t *testing.T, cfg frameCfg) *frameResult {
 	}
 	r := &frameResult{Cfg: cfg, Dist: map[string]int{}, Monitors: map[string]int{}}
 	txt := string(output)
+	if i := strings.Index(txt, "panic: test timed out"); i >= 0 {
+		tail := txt[i:]
+		if len(tail) > 3000 {
+			tail = tail[:3000]
+		}
+		r.Err = "child process timed out (a hang, not a panic): " + tail
+		return r
+	}
 	if i := strings.Index(txt, "panic: "); i >= 0 || strings.Contains(txt, "fatal error: ") {
 		if i < 0 {
 			i = strings.Index(txt, "fatal error: ")
@@ -2527,9 +2535,11 @@ func frameRunC05(cfg frameCfg) *frameResult {
 	stream := rng.bytes(20000)
 	off := 0
 	write := func(n int) {
-		if off+n <= len(stream) {
-			frameSafe(func() { x.peer.Write(stream[off : off+n]) })
-			off += n
+		if off+n <= len(stream) { // never block: the pump runs in this very goroutine
+			x.peer.SetWriteDeadline(time.Now().Add(2 * time.Millisecond))
+			var w int
+			frameSafe(func() { w, _ = x.peer.Write(stream[off : off+n]) })
+			off += w
 		}
 	}
 	write(100)
